@@ -112,3 +112,19 @@ def check(out, wd, recs, cases, tag, signature, describe):
     if r.violated and not r.viol_lines:
         out.violation(r.violated[0], r.violated[0], r.stdout[-1500:], None)
     return r
+
+
+def universe(which, wd):
+    """the polynomial universe defined in spec/GenPoly.tla, emitted by TLC: list of {key tuple of names: coef} + description"""
+    import json
+    outp = os.path.join(wd, "universe_%s.json" % which)
+    r = run_tlc("GenPoly", "GenPoly.cfg", env={"QV_GEN": which, "QV_GEN_OUT": outp}, timeout=600, workers=4, name="genpoly_" + which)
+    u = json.load(open(outp))
+    polys = [{tuple(k): c for k, c in p} for p in u["polys"]]
+    return polys, {"labels": u["labels"], "coefficients": u["coefs"], "size": u["size"], "emitted_by": "TLC (spec/GenPoly.tla)"}
+
+
+def instantiate(poly, pylabels):
+    """universe polynomial over names L0.. -> python terms over the given labels"""
+    m = {"L%d" % i: l for i, l in enumerate(pylabels)}
+    return {tuple(m[x] for x in k): c for k, c in poly.items()}
